@@ -30,7 +30,7 @@ impl Verdict {
     pub fn probe(&mut self, name: &'static str, n: u64) {
         *self.probes.entry(name).or_insert(0) += n;
     }
-    fn add(&mut self, prop: &str, clause: &str, sig: String, msg: String) {
+    pub fn add(&mut self, prop: &str, clause: &str, sig: String, msg: String) {
         // one violation per (clause, sig) is enough
         if self.violations.iter().any(|v| v.clause == clause && v.sig == sig) {
             return;
@@ -106,6 +106,15 @@ pub fn evaluate(prop: &str, case: &Case, model: &Model, hist: &History) -> Verdi
     common_probes(&a, &mut v);
     match prop {
         "C01" => c01(&a, &mut v),
+        "C02" => crate::oracle2::c02(&a, &mut v),
+        "C03" => crate::oracle2::c03(&a, &mut v),
+        "C04" => crate::oracle2::c04(&a, &mut v),
+        "C05" => crate::oracle2::c05(&a, &mut v),
+        "C06" => crate::oracle2::c06(&a, &mut v),
+        "C08" => crate::oracle2::c08(&a, &mut v),
+        "C10" => crate::oracle2::c10(&a, &mut v),
+        "C11" => crate::oracle2::c11(&a, &mut v),
+        "C16" => crate::oracle2::c16(&a, &mut v),
         _ => {}
     }
     v
@@ -162,13 +171,13 @@ fn common_probes(a: &Analysis, v: &mut Verdict) {
     v.probe("recv_empty_then_push_then_exit", straddle);
 }
 
-fn permitted_omission(a: &Analysis, r: &ExpRec) -> bool {
+pub fn permitted_omission(a: &Analysis, r: &ExpRec) -> bool {
     let o = outer(r.submit_op);
     a.lost_submit_ops.contains(&o) || a.tls_gone_ops.contains(&o) || !a.op_executed(o) || a.hist.ops[o].panic.is_some()
 }
 
 /// position (batch index) at which expectation i was first delivered
-fn delivered_batch(a: &Analysis, i: usize) -> Option<usize> {
+pub fn delivered_batch(a: &Analysis, i: usize) -> Option<usize> {
     // any twin counts (same-trace multi-parent replicas are indistinguishable)
     let mut best: Option<usize> = None;
     for j in a.twins(i) {
@@ -180,7 +189,7 @@ fn delivered_batch(a: &Analysis, i: usize) -> Option<usize> {
     best
 }
 
-fn rec_sig(a: &Analysis, r: &ExpRec) -> String {
+pub fn rec_sig(a: &Analysis, r: &ExpRec) -> String {
     let o = outer(r.submit_op);
     let sub_t = a.case.ops[o].t;
     let col = &a.model.collects[r.collect];
